@@ -824,4 +824,9 @@ theorem flag_owners :
     StateOwners.setters Facts.c13FuncMasks 4 = ["Listener.listen", "Proxy.listen", "Session.shutdown", "proxyClient.Close"] ∧
     StateOwners.clearers Facts.c13FuncMasks 4 = [] := by decide
 
+/-- No method of package c2 with a VALUE receiver changes flags through that receiver (it would
+change a copy and the update would be lost for every other holder of the Session / proxyClient):
+the regenerated list of such methods is empty. -/
+theorem no_value_receiver_mutators : Facts.c13ValueReceiverMutators = [] := by decide
+
 end XMT.Props.C13
